@@ -7,6 +7,13 @@ A *case* is the JSON document the Lean driver `Drivers/Distribution.lean` reads:
                  "invs": [{"id","il","el","eu","iu"}]}]}
 `invs` is listed in the iteration order of `frozenset(inverter_ids)` as the real code builds it on the side of
 the request (the only place where the algorithm depends on set iteration order).
+
+Keys only the harness reads (the driver ignores them):
+  "ts" (per battery / inverter) : sample time in seconds after TS — an unchanged component keeps its timestamp;
+  "history": [case, …]          : calls made BEFORE this one on the SAME `BatteryDistributionAlgorithm` instance (the
+                                  `BatteryManager` keeps one); the case's outputs are those of the last call;
+  "adjust_power": bool          : flag of the `Request` handed to the real `BatteryManager` (default true);
+  "fail_ids": [inverter id]     : inverters whose `set_power` call fails.
 """
 from __future__ import annotations
 
@@ -126,7 +133,8 @@ def build_components(case: dict, num: Callable[[str], Any]) -> list[Any]:
     for g in case["groups"]:
         bats = [
             BatteryDataWrapper(
-                component_id=b["id"], timestamp=TS, capacity=num(b["cap"]), soc=num(b["soc"]),
+                component_id=b["id"], timestamp=TS + timedelta(seconds=int(b.get("ts", 0))),
+                capacity=num(b["cap"]), soc=num(b["soc"]),
                 soc_lower_bound=num(b["soc_lo"]), soc_upper_bound=num(b["soc_hi"]),
                 power_inclusion_lower_bound=num(b["il"]), power_exclusion_lower_bound=num(b["el"]),
                 power_exclusion_upper_bound=num(b["eu"]), power_inclusion_upper_bound=num(b["iu"]),
@@ -135,7 +143,7 @@ def build_components(case: dict, num: Callable[[str], Any]) -> list[Any]:
         ]
         invs = [
             InverterDataWrapper(
-                component_id=i["id"], timestamp=TS,
+                component_id=i["id"], timestamp=TS + timedelta(seconds=int(i.get("ts", 0))),
                 active_power_inclusion_lower_bound=num(i["il"]), active_power_exclusion_lower_bound=num(i["el"]),
                 active_power_exclusion_upper_bound=num(i["eu"]), active_power_inclusion_upper_bound=num(i["iu"]),
             )
@@ -150,8 +158,13 @@ def run_impl(case: dict, exact: bool = True) -> dict:
     from frequenz.sdk.microgrid._power_distributing._distribution_algorithm import BatteryDistributionAlgorithm
 
     num: Callable[[str], Any] = (lambda s: Q(Fraction(s))) if exact else (lambda s: float(Fraction(s)))
-    comps = build_components(case, num)
     algo = BatteryDistributionAlgorithm(int(case["exp"]))
+    for h in case.get("history") or []:  # earlier calls on the same instance (their results do not matter here)
+        try:
+            algo.distribute_power(num(h["power"]), build_components(h, num))
+        except ValueError:
+            pass
+    comps = build_components(case, num)
     try:
         res = algo.distribute_power(num(case["power"]), comps)
     except ValueError:
@@ -296,6 +309,19 @@ def real_domain_probe(case: dict) -> dict:
     return out
 
 
+def real_check_request(case: dict, adjust_power: bool) -> bool:
+    """The REAL `BatteryManager._check_request` (floats): does the manager forward the request with this flag?"""
+    from frequenz.quantities import Power
+    from frequenz.sdk.microgrid._power_distributing._component_managers._battery_manager import BatteryManager
+    from frequenz.sdk.microgrid._power_distributing.request import Request
+
+    mgr = BatteryManager.__new__(BatteryManager)
+    bat_ids = frozenset(b["id"] for g in case["groups"] for b in g["bats"])
+    mgr._battery_caches = {b: None for b in bat_ids}  # type: ignore[attr-defined]
+    req = Request(power=Power.from_watts(float(F(case["power"]))), component_ids=bat_ids, adjust_power=adjust_power)
+    return mgr._check_request(req, build_components(case, lambda s: float(Fraction(s)))) is None  # pylint: disable=protected-access
+
+
 # --------------------------------------------------------------------------- reference regime tagger
 def _close0(v: Fraction) -> bool:
     return abs(v) <= CLOSE_TOL
@@ -428,7 +454,7 @@ def manager_report(case: dict, rem: Fraction) -> dict:
     return {"succeeded": rat(p - rem - f), "failed": rat(f), "excess": rat(rem)}
 
 
-def run_manager(case: dict, dist: dict[int, float], rem: float, fail_ids: set[int]) -> dict:
+def run_manager(case: dict, dist: dict[int, float], rem: float, fail_ids: set[int], adjust_power: bool = True) -> dict:
     """Drive the REAL `BatteryManager._distribute_power` with a fake API client; returns the reported
     succeeded/failed/excess powers and the `set_power` calls received by the client (floats)."""
     from frequenz.quantities import Power
@@ -465,7 +491,7 @@ def run_manager(case: dict, dist: dict[int, float], rem: float, fail_ids: set[in
     mgr._component_pool_status_tracker = _Tracker()  # type: ignore[attr-defined]
     mgr._api_power_request_timeout = timedelta(seconds=5)  # type: ignore[attr-defined]
     req = Request(power=Power.from_watts(float(F(case["power"]))), component_ids=frozenset(bat_ids),
-                  adjust_power=True)
+                  adjust_power=adjust_power)
     result = DistributionResult(distribution=dict(dist), remaining_power=rem)
 
     async def go() -> Any:
@@ -573,9 +599,11 @@ def _bounds(rng: random.Random, lat: dict, big: bool) -> tuple[Fraction, Fractio
     return il, el, eu, iu
 
 
-def gen_case(rng: random.Random, next_id: list[int] | None = None) -> dict:
+def gen_case(rng: random.Random, next_id: list[int] | None = None, lat_out: dict | None = None) -> dict:
     """A consistent-by-construction case (may still be outside the admitted requests)."""
     lat = _lat(rng)
+    if lat_out is not None:
+        lat_out.update(lat)
     ngroups = rng.choice([1, 2, 2, 2, 3, 3, 4, 5])
     ids = list(range(1, 60))
     rng.shuffle(ids)
@@ -620,6 +648,110 @@ def gen_case(rng: random.Random, next_id: list[int] | None = None) -> dict:
     case["power"] = rat(gen_request(rng, case, lat))
     finish_case(case)
     return case
+
+
+def _repair_min_le_incl(groups: list[dict]) -> None:
+    """"group minimum power <= group inclusion bound" by lowering exclusion bounds (as in `gen_case`)."""
+    for g in groups:
+        for supply in (False, True):
+            for _ in range(6):
+                s = group_side(g, supply)
+                if s["min_p"] <= s["ub"]:
+                    break
+                k_e = "el" if supply else "eu"
+                for c in g["bats"] + g["invs"]:
+                    c[k_e] = rat(F(c[k_e]) / 2 if abs(F(c[k_e])) > 1 else 0)
+
+
+def _strip_history(case: dict) -> dict:
+    return {k: v for k, v in case.items() if k != "history"}
+
+
+def gen_sequence(rng: random.Random) -> list[dict]:
+    """2-4 calls on ONE algorithm instance, as the `BatteryManager` makes them: between two calls the batteries publish
+    new data (derated / widened inclusion bounds, changed exclusion bounds, SoC moved to / off a limit) while the
+    inverter samples stay the same, or the other way round, or both, or nothing changes; the next request goes in the
+    same or in the opposite direction (often the very same request, or one at the new inclusion / advertised bounds).
+    A component that did not change keeps its timestamp `ts`; a changed one gets the index of the call.  Every call is
+    a case of its own whose `history` lists the calls before it."""
+    import copy
+
+    lat: dict = {}
+    base = gen_case(rng, lat_out=lat)
+    steps = [base]
+    for k in range(1, rng.choice([2, 2, 3, 3, 4])):
+        cur = steps[-1]
+        nxt = copy.deepcopy(_strip_history(cur))
+        kind = rng.choice(["bat", "bat", "bat", "bat", "inv", "inv", "both", "none"])
+        anchors = lat["anchors"]
+
+        def new_bounds(c: dict, big: bool) -> None:
+            r = rng.random()
+            il, el, eu, iu = (F(c[x]) for x in ("il", "el", "eu", "iu"))
+            if r < 0.4:  # derate
+                f = rng.choice([2, 2, 4, Fraction(5, 2)])
+                il, iu = il / f, iu / f
+                el, eu = max(el, il), min(eu, iu)
+            elif r < 0.55:  # widen
+                f = rng.choice([2, 3])
+                il, iu = il * f, iu * f
+            elif r < 0.7:  # one-sided derating
+                if rng.random() < 0.5:
+                    iu = max(eu, iu / 2)
+                else:
+                    il = min(el, il / 2)
+            elif r < 0.85:  # exclusion zone appears / disappears / moves
+                e = Fraction(0) if rng.random() < 0.4 else min(iu, -il, Fraction(rng.choice(anchors)) / rng.choice([1, 2, 4, 10]))
+                el, eu = -e, e
+            else:
+                il, el, eu, iu = _bounds(rng, lat, big)
+            c.update({"il": rat(il), "el": rat(el), "eu": rat(eu), "iu": rat(iu)})
+
+        before = copy.deepcopy(nxt["groups"])
+        picked = [g for g in nxt["groups"] if rng.random() < 0.6] or [rng.choice(nxt["groups"])]
+        if kind in ("bat", "both"):
+            for g in picked:
+                for b in g["bats"]:
+                    if rng.random() < 0.7:
+                        new_bounds(b, big=True)
+                    if rng.random() < 0.3:
+                        lo_b, hi_b = F(b["soc_lo"]), F(b["soc_hi"])
+                        b["soc"] = rat(rng.choice([hi_b, lo_b, (lo_b + hi_b) / 2, hi_b - Fraction(1, 2), lo_b + 1]))
+        if kind in ("inv", "both"):
+            for g in picked:
+                for i in g["invs"]:
+                    if rng.random() < 0.7:
+                        new_bounds(i, big=False)
+        _repair_min_le_incl(nxt["groups"])
+        nxt["power"] = "1"
+        if not consistent(nxt):
+            nxt["groups"] = before
+        # unchanged component => unchanged timestamp
+        for g_old, g_new in zip(before, nxt["groups"]):
+            for key in ("bats", "invs"):
+                old = {c["id"]: c for c in g_old[key]}
+                for c in g_new[key]:
+                    o = old[c["id"]]
+                    same = all(c[x] == o[x] for x in c if x != "ts")
+                    c["ts"] = o.get("ts", 0) if same else k
+        prev = F(cur["power"])
+        same_dir = rng.random() < 0.7
+        r = rng.random()
+        if same_dir and r < 0.35:
+            req = prev
+        else:
+            req = gen_request(rng, nxt, lat)
+            for _ in range(8):
+                if (req < 0) == (prev < 0) if same_dir else (req < 0) != (prev < 0):
+                    break
+                req = gen_request(rng, nxt, lat)
+        nxt["power"] = rat(req)
+        nxt.pop("fail_ids", None)
+        nxt["failed"] = None
+        finish_case(nxt)
+        nxt["history"] = [_strip_history(h) for h in steps]
+        steps.append(nxt)
+    return steps
 
 
 def finish_case(case: dict) -> None:
@@ -774,7 +906,13 @@ RULE = ("1-5 battery groups (1-2 batteries x 1-3 inverters, ids shuffled so that
         "bounds, a share landing exactly on a group's bound, each +-{0, 1/2, 1, unit, 1e-10 rel, 1e-9}; both signs; "
         "~12% malformed (outside the domain, only model = code). non-trivial = consistent, admitted, >=2 groups "
         "and at least one of: non-zero exclusion bound, group without headroom, multi-inverter group, request "
-        "beyond the inclusion bounds; distinct by canonical JSON hash")
+        "beyond the inclusion bounds; distinct by canonical JSON hash.  Every 8th case of C01 also goes through the "
+        "real BatteryManager._distribute_power (fake API client) with adjust_power in {True, False} (False only where "
+        "the real _check_request forwards it) and scripted set_power failures.  In addition sequences of 2-4 calls on "
+        "ONE BatteryDistributionAlgorithm instance: between calls only the batteries / only the inverters / both / "
+        "nothing change (derating, widening, exclusion zones, SoC to a limit; unchanged component = unchanged "
+        "timestamp), next request in the same or the opposite direction; every call is checked against the data of "
+        "THAT call and compared with the stateless model")
 
 
 def corpus_cases(prop: str) -> list[dict]:
@@ -788,6 +926,20 @@ def corpus_cases(prop: str) -> list[dict]:
             c = json.loads(p.read_text())
             out.append(c.get("case", c))
     return out
+
+
+def sequence_tags(case: dict) -> list[str]:
+    """What changed between the previous call on the instance and this one."""
+    prev = case["history"][-1]
+    old = {c["id"]: c for g in prev["groups"] for c in g["bats"] + g["invs"]}
+    bat = any({x: v for x, v in b.items() if x != "ts"} != {x: v for x, v in old[b["id"]].items() if x != "ts"}
+              for g in case["groups"] for b in g["bats"])
+    inv = any({x: v for x, v in i.items() if x != "ts"} != {x: v for x, v in old[i["id"]].items() if x != "ts"}
+              for g in case["groups"] for i in g["invs"])
+    what = "both" if bat and inv else ("batteries-only" if bat else ("inverters-only" if inv else "nothing"))
+    same = (F(prev["power"]) > 0) == (F(case["power"]) > 0)
+    return ["seq", f"seq:changed-{what}", "seq:same-direction" if same else "seq:opposite-direction",
+            f"seq:call-{len(case['history']) + 1}"]
 
 
 def case_tags(case: dict, flags: list[str], cons: bool, adm: bool) -> tuple[list[str], bool]:
@@ -827,13 +979,15 @@ def case_tags(case: dict, flags: list[str], cons: bool, adm: bool) -> tuple[list
     return tags, nontrivial
 
 
-def process(ctx: Any, prop: str, case: dict, mgr_probe: bool, domain_probe: bool = False) -> dict:
+def process(ctx: Any, prop: str, case: dict, mgr_probe: bool, domain_probe: bool = False, seq: bool = False) -> dict:
     """Run one case on the real code (exact + float), tag it, evaluate the oracle, return the canonical
     implementation-side output for the comparison with the Lean driver."""
     out = run_impl(case, exact=True)
     flags = flags_canonical(regimes(case))
     cons, adm = consistent(case), admitted(case)
     tags, nontrivial = case_tags(case, flags, cons, adm)
+    if case.get("history"):
+        tags += sequence_tags(case)
     if "error" in out:
         ctx.case(case, tags=tags + ["ValueError"], nontrivial=False)
         return {"error": out["error"], "consistent": cons, "admitted": adm, "manager_admits": manager_admits(case)}
@@ -880,13 +1034,28 @@ def process(ctx: Any, prop: str, case: dict, mgr_probe: bool, domain_probe: bool
     # what the battery manager reports
     if prop == "C01" and mgr_probe and in_domain and gap <= Fraction(1, 10**6):
         fail_ids = set(case.get("fail_ids") or [])
-        r = run_manager(case, {int(k): v for k, v in fl["dist"].items()}, fl["rem"], fail_ids)
+        # the flag of the request: `adjust_power=False` only where the real `_check_request` forwards such a request
+        # (inside the inclusion bounds) — the remainder can still be non-zero there (a battery at its SoC limit)
+        adjust = bool(case.get("adjust_power", True))
+        if not adjust and not real_check_request(case, False):
+            adjust = True
+            tags.append("manager:no-adjust-rejected")
+        r = run_manager(case, {int(k): v for k, v in fl["dist"].items()}, fl["rem"], fail_ids, adjust)
         tol = float(scale) * 1e-6
         commanded_ok = sum(w for i, w in r["calls"] if i not in fail_ids)
+        commanded_all = sum(w for _, w in r["calls"])
         tags.append("manager:" + r["kind"])
+        tags.append("manager:adjust" if adjust else "manager:no-adjust")
+        if abs(fl["rem"]) > tol:
+            tags.append("manager:remainder" if adjust else "manager:no-adjust+remainder")
         if sorted(r["calls"]) != sorted((int(k), v) for k, v in fl["dist"].items()):
             ctx.violation("C01.commanded", case, {"set_power_calls": r["calls"], "distribution": fl["dist"]}, regime=None)
         elif "succeeded" in r:
+            # the property's sum clause observed at the manager: what was actually commanded + the reported excess
+            if abs(commanded_all + r["excess"] - float(p)) > tol:
+                ctx.violation("C01.commanded-plus-excess", case,
+                              {**r, "commanded": commanded_all, "request": float(p), "adjust_power": adjust},
+                              regime=regime_of("sum", flags))
             if abs(r["succeeded"] + r["failed"] + r["excess"] - float(p)) > tol:
                 ctx.violation("C01.report-sum", case, r, regime=None)
             if abs(r["succeeded"] - commanded_ok) > tol:
@@ -931,8 +1100,18 @@ def run_property(ctx: Any, prop: str) -> None:
         probe = prop == "C01" and i % 8 == 0
         if probe and rng.random() < 0.5:
             prepare_failed(case, rng)
+        if probe:
+            case["adjust_power"] = rng.random() < 0.5
         cases.append(case)
         outs.append(process(ctx, prop, case, mgr_probe=probe, domain_probe=i % 5 == 1))
+    # sequences of calls on one long-lived instance
+    for i in range(ctx.budget(quick=170, thorough=2500)):
+        rng = ctx.subrng("sequence", i)
+        for k, case in enumerate(gen_sequence(rng)):
+            if k == 0:
+                continue  # the first call of a sequence is an ordinary case (covered above)
+            cases.append(case)
+            outs.append(process(ctx, prop, case, mgr_probe=False, seq=True))
     if ctx.tier == "thorough":
         for c in exhaustive_small():
             finish_case(c)
